@@ -12,7 +12,7 @@ ENGINE_TEXT = {
     "logsim": "seeded serialising scheduler over parked real threads; pthread_mutex_* wrapped at link time; not-thread-safe simulated stream buffer behind cout/cerr; simulated clock; runtime threshold flips; real nitro::log front end",
     "optsim": "deterministic simulation of sessions on one long-lived options parser (declare / move / env change / parse, aborted parses, allocation faults) against a freshly built twin and a declaration table",
     "usagesim": "simulated target streams (non-seekable, offset, pre-filled, tiny buffers, chunked, failing) for parser::usage(); text must be identical on every stream",
-    "dlsim": "simulated dynamic loader attached with -Wl,--wrap (handle table, reference counts, pending error string, failing opens/lookups, NULL symbols, stale errors) plus real process environment; enumerated allocation faults",
+    "dlsim": "simulated dynamic loader attached with -Wl,--wrap (handle table, reference counts, pending error string, failing opens/lookups, NULL symbols, stale errors), a second configuration forwarding to the real loader, plus the real process environment; enumerated allocation faults",
 }
 
 CHECKS = {
@@ -22,7 +22,7 @@ CHECKS = {
                 tech="deterministic simulation: seeded thread scheduler + fault injection (threshold flips, throwing callables, clock jumps) with per-statement reference oracle"),
     "C09": dict(engine="logsim", level="exploration", ref="3.1",
                 text="2-4 simulated threads log through stdout_mt / StdErrThreaded / sequence<stdout_mt,StdErrThreaded>; std::mutex lock/unlock/trylock are scheduler yield points with modelled ownership, and the buffer of cout/cerr is a chunking, buffered, deliberately not thread-safe stream buffer with yields inside xsputn/sync; after each run the device bytes must parse as whole records, the multiset of records must equal the enabled statements, each thread's records must be in program order, no thread may enter the buffer while another is inside, no mutex may stay owned, and the run must terminate (deadlock = no runnable thread)",
-                note="interleavings explored at the granularity of the yield points (mutex calls, stream buffer, filter/formatter/sink/callable/clock calls, workload steps) with uniform-random and PCT-style strategies; stream errors are not injected (badbit discards records by specification); cerr's tie to cout is switched off for the combined sequence sink (outside the property's quantifier)",
+                note="interleavings explored at the granularity of the yield points (mutex calls, stream buffer, filter/formatter/sink/callable/clock calls, workload steps) with uniform-random and PCT-style strategies; also wrapped: timed/rw/spin locks and sched_yield (timed locks may time out); a device I/O error part-way through a run is injected in some runs and then only liveness, mutual exclusion and lock release are judged (badbit discards records by specification); cerr's tie to cout is switched off for the combined sequence sink (outside the property's quantifier); a busy-wait on an atomic without yielding cannot be simulated and is reported as inconclusive (exit 2), never as a verdict",
                 tech="deterministic simulation: seeded scheduler over parked real threads, link-time wrapped mutexes, racy simulated stream device"),
     "C10": dict(engine="logsim", level="exploration", ref="3.1",
                 text="same runs as C05 (different seeds): below the compile-time minimum no filter evaluation, no record construction, no formatter/sink call, no callable invocation, and the stream type is an empty trivially-destructible class (read with type traits); a statement rejected by the runtime filter reaches neither formatter nor sink and calls no callable; for an emitted record every streamed callable is called exactly once inside the insertion that streamed it",
@@ -54,7 +54,7 @@ CHECKS = {
                 tech="deterministic simulation of the target stream (I/O layer faults: non-seekable, offset, prior content, short writes) with differential oracle"),
     "C19": dict(engine="dlsim", level="fault_enumeration", ref="3.6",
                 text="seeded histories of open/load/copy/call/destroy on dl and symbol objects against a simulated loader (failing opens and lookups with unique diagnostics, NULL-valued symbols, stale pending errors, failing dlclose) and of setenv/unsetenv/get against the real process environment; after every operation: each successful dlopen is closed exactly once, never while any derived object is alive and at the latest when the last is destroyed, no call into a closed library, failures raise dl::exception with the injected diagnostic; allocation faults enumerated inside open/load/copy",
-                note="loader is a stub (handle table + refcounts); sampled histories; complete only over single allocation-fault positions of the chosen operations",
+                note="about 7/8 of the runs use the stub loader (handle table + refcounts), 1/8 forward to the real loader and two real shared objects and only count; sampled histories; complete only over single allocation-fault positions of the chosen operations",
                 tech="deterministic simulation with a simulated dynamic loader (link-time wrap) and enumerated allocation-fault injection"),
 }
 
@@ -106,7 +106,7 @@ def main():
         } for p in claimed],
         "not_applicable": [{"property_id": p, "reason": r} for p, r in sorted(NA.items())] +
                           [{"property_id": p, "reason": "claimed in DESIGN.md (%s) but its engine is not built yet in this commit; it moves to checks when the engine lands" % CHECKS[p]["engine"]} for p in pending],
-        "notes": "Driver: bin/check.py (stdlib python, /usr/bin/python3). Builds are keyed by a hash of /repo/include, /repo/src and the harness sources and always come from /repo's working tree. Exit 2 means the harness misbehaved (never a property verdict). known_findings.json lists repaired (fixed:) and open defects; seeded/ holds independently written breaking changes and which check catches them; bin/selftest.py validates determinism, replay and reach.",
+        "notes": "Driver: bin/check.py (stdlib python, /usr/bin/python3). Builds are keyed by a hash of /repo/include, /repo/src and the harness sources and always come from /repo's working tree. Exit 2 means the harness misbehaved (never a property verdict). known_findings.json lists repaired (fixed:) and open defects; seeded/ holds independently written breaking changes and which check catches them; bin/selftest.py validates determinism, replay and reach; bin/regress.py runs the checks against every seeded (must be caught) and benign (must stay silent) change; a violation that depends on state the code under test keeps across runs is reproduced in fresh processes (plan alone, else a run-range replay file).",
     }
     with open(os.path.join(VERIF, "MANIFEST.json"), "w") as f:
         json.dump(m, f, indent=1)
